@@ -270,6 +270,24 @@ theorem RInv.step {s s' : State} {e : Ev} (hr : RInv s) (hk : KInv s) (hi : HInv
   | joinFail a h => obtain ⟨_, _, _, _, _, rfl⟩ := joinFail_ok hs; exact ⟨hr.k0n, hr.k0w, hr.tF⟩
   | tlsFail t' k g => obtain ⟨_, _, _, _, _, rfl⟩ := tlsFail_ok hs; exact ⟨hr.k0n, hr.k0w, hr.tF⟩
   | currentFail t' => obtain ⟨_, _, rfl⟩ := currentFail_ok hs; exact ⟨hr.k0n, hr.k0w, hr.tF⟩
+  | storeFail t' k r => obtain ⟨n, _, _, _, _, _, rfl⟩ := storeFail_ok hs; exact ⟨hr.k0n, hr.k0w, hr.tF⟩
+  | startUnstored t' =>
+    obtain ⟨h0, _, _, _, _, _, _, rfl⟩ := startUnstored_ok hs
+    refine ⟨hr.k0n, hr.k0w, ?_⟩
+    intro t h hp hh; simp only at hp hh ⊢
+    by_cases e : t = t'
+    · subst e; simp [upd] at hh
+    · rw [upd_ne _ _ e] at hp hh; exact hr.tF t h hp hh
+  | retUnstored t' h0 =>
+    obtain ⟨hc, _, s1, hu, rfl⟩ := retUnstored_ok hs
+    have e1 : s1.key = s.key ∧ s1.tls = s.tls ∧ s1.thr = s.thr := by
+      obtain ⟨_, ⟨_, rfl⟩ | ⟨_, rfl⟩⟩ := unrefCore_ok hu <;> exact ⟨rfl, rfl, rfl⟩
+    refine ⟨by simp only; rw [e1.1]; exact hr.k0n, by simp only; rw [e1.1]; exact hr.k0w, ?_⟩
+    intro t h hp hh; simp only at hp hh ⊢
+    rw [e1.1, e1.2.1]
+    by_cases e : t = t'
+    · subst e; rw [e1.2.2] at hh; simp [upd] at hh; exact hi.tR t h hc.1 hh
+    · rw [upd_ne _ _ e, e1.2.2] at hp hh; exact hr.tF t h hp hh
 
 /-- the handle record after the library key's destructor took the thread's own reference -/
 def afterOwn (x : Handle) : Handle :=
@@ -504,6 +522,15 @@ theorem SJInv.step {s s' : State} {e : Ev} (hj : SJInv s) (hs : step s e = .ok s
     obtain ⟨_, _, rfl⟩ := currentFail_ok hs
     refine hj.frame rfl (Nat.le_succ _) (fun h hh => ?_)
     simp only; rw [upd_ne _ _ (by omega)]
+  | storeFail t k r => obtain ⟨n, _, _, _, _, _, rfl⟩ := storeFail_ok hs; exact hj.frame rfl (Nat.le_refl _) (fun _ _ => rfl)
+  | startUnstored t =>
+    obtain ⟨h0, _, _, _, _, _, _, rfl⟩ := startUnstored_ok hs
+    refine hj.frame rfl (Nat.le_refl _) (fun h' _ => ?_)
+    simp only; apply upd_joinable; rfl
+  | retUnstored t h0 =>
+    obtain ⟨_, _, s1, hu, rfl⟩ := retUnstored_ok hs
+    have r := unrefCore_joinable hu
+    exact hj.frame r.1 (by simp only; rw [r.2.1]; exact Nat.le_refl _) (fun h' _ => r.2.2 h')
 
 theorem Reach.rinv {s : State} (h : Reach s) : RInv s ∧ SJInv s := by
   induction h with
@@ -929,6 +956,22 @@ theorem refine_replaceLocal {s s' : State} {sp : S} {t k v : Nat} (hk : KInv s) 
   · simp [c, hk0, liveOf]
   ·     simp [c, liveOf]
 
+theorem refine_storeFail {s s' : State} {sp : S} {t k : Nat} {r : Bool} (ab : Abs s sp)
+    (hs : step s (.storeFail t k r) = .ok s') :
+    Abs s' sp ∧
+    obsM s (.storeFail t k r) s' = { live := liveOf s', dtor := if r then sortD (Sp.replaceLocal sp t k 0).2.dtor else [] } := by
+  obtain ⟨n, _, hk0, hlt, hwf, hp, rfl⟩ := storeFail_ok hs
+  refine ⟨ab.same (fun _ => rfl) rfl (fun _ => rfl) (fun _ => rfl) (fun _ => rfl) (fun _ _ _ => rfl) (fun _ => rfl), ?_⟩
+  have hcell : sp.cell t k = s.tls t n := by rw [ab.aC t k hk0, cellOf, hwf]; simp [valueOf_pub hp]
+  have hnot : sp.keys[k]?.getD false = (s.key k).notifier := by rw [ab.notif k]; simp [hlt]
+  cases r with
+  | false => simp [obsM, notifyOld, setCallsNotifier, sortD, liveOf]
+  | true =>
+    simp only [obsM, PV.UThreadSpec.replaceLocal, notifyOld, replaceCallsNotifier, hcell, hnot, List.drop_append_length, if_true]
+    by_cases c : s.tls t n ≠ 0 ∧ (s.key k).notifier = true
+    · simp [c, hk0, liveOf]
+    · simp [c, liveOf]
+
 /-- the reference's record of a live, fully created handle -/
 theorem absH_live {x : Handle} (hf : x.freed = false) (hw : x.written = true) :
     absH x = { refs := holders x, joinable := x.joinable, code := x.retCode, live := true } := by
@@ -993,6 +1036,78 @@ theorem refine_unref {s s' : State} {sp : S} {a h : Nat} (hi : HInv s) (ab : Abs
         simp only [absH, decd, hf, hw, holders]
         by_cases htr : (s.hdl h).threadRef = true <;> simp [htr] at hL h1 hrefs ⊢ <;> omega)
     exact this
+
+theorem refine_startUnstored {s s' : State} {sp : S} {t : Nat} (ab : Abs s sp)
+    (hs : step s (.startUnstored t) = .ok s') :
+    Abs s' (unstored sp t) ∧ obsM s (.startUnstored t) s' = { live := liveOf s' } := by
+  obtain ⟨h0, _, _, hh, _, hv, _, rfl⟩ := startUnstored_ok hs
+  refine ⟨?_, obsM_quiet trivial rfl rfl rfl rfl rfl⟩
+  refine ⟨?_, ab.aT, ?_, ?_, ab.aK, ab.aC, ab.aF⟩
+  · intro h
+    show sp.handles[h]? = _
+    have := hOf_upd_same_abs (s := s) (h0 := h0) (x := { s.hdl h0 with orphan := true }) (fl := s.freeLog) (by simp [absH, holders]) h
+    rw [ab.aH h, ← this]; rfl
+  · intro t'
+    simp only [unstored]
+    rw [lookup_filter (p := fun a => decide (a ≠ t))]
+    by_cases e : t' = t
+    · subst e
+      simp only [ne_eq, not_true_eq_false, decide_false, Bool.false_eq_true, if_false]
+      unfold selfOf; simp only [upd, if_true]
+      simp only [valueOf] at hv
+      cases hp : (s.key 0).published with
+      | none => rfl
+      | some n => simp only [hp] at hv; simp [hv]
+    · simp only [ne_eq, e, not_false_eq_true, decide_true, if_true]
+      rw [ab.aS t']; symm
+      exact selfOf_thr_eq t' (by simp only; rw [upd_ne _ _ e]) (fun _ => by simp only; rw [upd_ne _ _ e]) (fun _ => ⟨rfl, fun _ _ => rfl⟩)
+  · intro t'
+    simp only [unstored, List.mem_filter, ab.aO t']
+    by_cases e : t' = t
+    · subst e; simp [upd]
+    · rw [upd_ne _ _ e]; simp [e]
+
+theorem refine_retUnstored {s s' : State} {sp : S} {t h : Nat} (hi : HInv s) (hp : PInv s) (ab : Abs s sp)
+    (hs : step s (.retUnstored t h) = .ok s') :
+    Abs s' (Sp.drop sp h).1 ∧ obsM s (.retUnstored t h) s' = { live := liveOf s', freed := (Sp.drop sp h).2 } := by
+  obtain ⟨hc, hpx, s1, hu, rfl⟩ := retUnstored_ok hs
+  obtain ⟨p1, _, hlt, _, _, _, hw, _, _, p10⟩ := hp.pP t h hpx
+  have htr := p10 hc.1
+  obtain ⟨hf, hcase⟩ := unrefCore_ok hu
+  have hR := hi.hR h hf
+  have hsp : sp.handles[h]? = some (absH (s.hdl h)) := by rw [ab.aH h, hOf, if_pos hlt]
+  have hrefs : (absH (s.hdl h)).refs = holders (s.hdl h) := by rw [absH_live hf hw]
+  have hone : ((s.hdl h).refCount = unrefFreesWhenOldIs) ↔ (absH (s.hdl h)).refs = 1 := by
+    rw [hrefs, hR]; simp only [unrefFreesWhenOldIs]; omega
+  -- the thread record only moves on to `finished`: the reference sees no difference (the thread has no handle of its own)
+  have thr_same : ∀ (s1 : State) (sp1 : S), s1.thr = s.thr → Abs s1 sp1 →
+      Abs { s1 with thr := upd s1.thr t { s1.thr t with phase := .finished } } sp1 := by
+    intro s1 sp1 et a1
+    refine a1.same (fun _ => rfl) rfl ?_ ?_ (fun _ => rfl) (fun _ _ _ => rfl) (fun _ => rfl)
+    · intro t'
+      by_cases e : t' = t
+      · subst e
+        exact selfOf_thr_eq t' (by simp) (fun hs' => by simp [upd, et, p1] at hs') (fun _ => ⟨rfl, fun _ _ => rfl⟩)
+      · exact selfOf_thr_eq t' (by simp only; rw [upd_ne _ _ e]) (fun _ => by simp only; rw [upd_ne _ _ e]) (fun _ => ⟨rfl, fun _ _ => rfl⟩)
+    · intro t'; simp only
+      by_cases e : t' = t
+      · subst e; simp
+      · rw [upd_ne _ _ e]
+  rcases hcase with ⟨hcn, rfl⟩ | ⟨hcn, rfl⟩
+  · have h1 := hone.mp hcn
+    simp only [PV.UThreadSpec.drop, hsp, h1, if_true]
+    refine ⟨?_, by simp [obsM, sortD, liveOf]⟩
+    exact thr_same _ _ (by rfl) (ab.updH hlt (by simp [absH, decd]))
+  · have h1 : ¬ (absH (s.hdl h)).refs = 1 := fun x => hcn (hone.mpr x)
+    simp only [PV.UThreadSpec.drop, hsp, h1, if_false]
+    refine ⟨?_, obsM_quiet trivial rfl rfl rfl rfl rfl⟩
+    have := ab.updH (h := h) (x := decd (s.hdl h) true) (fl := s.freeLog) (f := fun x => { x with refs := x.refs - 1 }) hlt
+      (by
+        rw [absH_live hf hw]
+        simp only [holders] at hrefs h1 ⊢
+        simp only [absH, decd, hf, hw, holders, htr]
+        simp [htr] at h1 hrefs ⊢)
+    exact thr_same _ _ (by rfl) this
 
 theorem currentCore_logs (s : State) (t n : Nat) :
     (currentCore s t n).1.joinLog = s.joinLog ∧ (currentCore s t n).1.getLog = s.getLog ∧ (currentCore s t n).1.curLog = s.curLog ∧
@@ -1069,7 +1184,7 @@ theorem refine_current {s s' : State} {sp : S} {t : Nat} (hk : KInv s) (hi : HIn
   refine ⟨ab1.same (fun _ => rfl) rfl (fun _ => rfl) (fun _ => rfl) (fun _ => rfl) (fun _ _ _ => rfl) (fun _ => rfl), ?_⟩
   simp [obsM, l1, l2, l3, l4, l5, hret, sortD, liveOf]
 
-theorem refine_exit {s s' : State} {sp : S} {t : Nat} {c : Int} (hk : KInv s) (hi : HInv s) (ab : Abs s sp)
+theorem refine_exit {s s' : State} {sp : S} {t : Nat} {c : Int} (hk : KInv s) (hi : HInv s) (hpi : PInv s) (ab : Abs s sp)
     (hs : step s (.exit t c) = .ok s') :
     Abs s' (Sp.exit (Sp.current sp t).1 t c) ∧ obsM s (.exit t c) s' = { live := liveOf s' } := by
   obtain ⟨n, hc, _, hp, hfr, hcase⟩ := exit_ok hs
@@ -1098,7 +1213,7 @@ theorem refine_exit {s s' : State} {sp : S} {t : Nat} {c : Int} (hk : KInv s) (h
           unfold currentCore; simp [g2]
         rw [e, ho'] at ho; cases ho
     simp only [PV.UThreadSpec.exit, this, if_false]; exact ab1
-  · have hlink := hi1.hO _ ho
+  · have hlink := hi1.hO _ ho (currentCore_orphan hpi hi hk hp)
     rw [hth] at hlink
     have hlt := (hi1.tH t _ hlink).1
     have hmem : t ∈ (Sp.current sp t).1.ours := (ab1.aO t).mpr (by rw [hlink]; rfl)
@@ -1457,7 +1572,7 @@ theorem refine_step {s s' : State} {sp : S} {e : Ev} (hr : Reach s) (ab : Abs s 
   | createBegin a' j n => obtain ⟨a, o⟩ := refine_createBegin hk hi ab hs; exact ⟨a, by rw [o]; simp [specStep, a.live]⟩
   | createEnd a' => obtain ⟨a, o⟩ := refine_createEnd hi hj ab hs; exact ⟨a, by rw [o]; simp [specStep, a.live]⟩
   | start t => obtain ⟨a, o⟩ := refine_start hk ab hs; exact ⟨a, by rw [o]; simp [specStep, a.live]⟩
-  | exit t c => obtain ⟨a, o⟩ := refine_exit hk hi ab hs; exact ⟨a, by rw [o]; simp [specStep, a.live]⟩
+  | exit t c => obtain ⟨a, o⟩ := refine_exit hk hi hr.pinv ab hs; exact ⟨a, by rw [o]; simp [specStep, a.live]⟩
   | ret t => obtain ⟨a, o⟩ := refine_ret ab hs; exact ⟨a, by rw [o]; simp [specStep, a.live]⟩
   | threadEnd t => obtain ⟨a, o⟩ := refine_threadEnd hk hi hri ab hs; exact ⟨a, by rw [o]; simp [specStep, a.live]⟩
   | ref a' h => obtain ⟨a, o⟩ := refine_ref ab hs; exact ⟨a, by rw [o]; simp [specStep, a.live]⟩
@@ -1475,6 +1590,9 @@ theorem refine_step {s s' : State} {sp : S} {e : Ev} (hr : Reach s) (ab : Abs s 
   | joinFail a' h => obtain ⟨a, o⟩ := refine_joinFail ab hs; exact ⟨a, by rw [o]; simp [specStep, a.live]⟩
   | tlsFail t k g => obtain ⟨a, o⟩ := refine_tlsFail ab hs; exact ⟨a, by rw [o]; simp [specStep, a.live]⟩
   | currentFail t => obtain ⟨a, o⟩ := refine_currentFail hi ab hs; exact ⟨a, by rw [o]; simp [specStep, a.live]⟩
+  | storeFail t k r => obtain ⟨a, o⟩ := refine_storeFail ab hs; exact ⟨a, by rw [o]; simp [specStep, a.live]⟩
+  | startUnstored t => obtain ⟨a, o⟩ := refine_startUnstored ab hs; exact ⟨a, by rw [o]; simp [specStep, a.live]⟩
+  | retUnstored t h => obtain ⟨a, o⟩ := refine_retUnstored hi hr.pinv ab hs; exact ⟨a, by rw [o]; simp [specStep, a.live]⟩
 
 /-- over any history: as long as the machine accepts the events, the reference gives the same answers -/
 theorem refine_run : ∀ (es : List Ev) {s : State} {sp : S}, Reach s → Abs s sp →
